@@ -136,6 +136,8 @@ def run_prop(chk: Check, prop: str) -> int:
     hist: dict[str, int] = {}
     samples = []
     nseg = nseg_ndc = 0
+    prop_hits: list = []
+    corr_hits: list = []
     for origin, case in cases:
         ev = evaluate(case)
         evaluations += 1
@@ -155,11 +157,16 @@ def run_prop(chk: Check, prop: str) -> int:
             distinct.add(json.dumps(case, sort_keys=True))
         if len(samples) < 3 and len(ev["stats"]) >= 3 and len(case["events"]) <= 12:
             samples.append({"case": case, "impl": [o for _, o in ev["trace"]]})
-        if verdict(ev, prop) is not None:
-            found += 1
-            report(chk, case, prop, origin)
-            if found >= 3:
+        v = verdict(ev, prop)
+        if v is not None:
+            # SEARCH (DESIGN section 5): a broken correspondence alone is not yet a failing input of the property;
+            # keep looking through the budget for a case on which the implementation contradicts the statement
+            (prop_hits if v[0] == "property" else corr_hits).append((origin, case))
+            if len(prop_hits) >= 3 or (len(corr_hits) >= 40 and not prop_hits):
                 break
+    for origin, case in (prop_hits[:3] or corr_hits[:2]):
+        found += 1
+        report(chk, case, prop, origin)
     if proof is not None:
         chk.proof_broken(proof, found > 0)
     chk.coverage.update({
